@@ -113,6 +113,11 @@ func waitNoGoroutines(d time.Duration) (int, string) {
 func cmdSchedErr(o *Out, line string, f []string) {
 	reader, point, occ, sleepMs, seed := f[0], f[1], int(atoi64(f[2])), int(atoi64(f[3])), atoi64(f[4])
 	stream := unhx(f[5])
+	// optional third section: "errors>=K" - the stream fails at K places that every schedule reaches
+	wantErrors := 0
+	if sec := sections(f); len(sec) >= 3 && len(sec[2]) == 1 && strings.HasPrefix(sec[2][0], "errors>=") {
+		wantErrors = int(atoi64(sec[2][0][len("errors>="):]))
+	}
 	rules := map[string]verifhook.Rule{}
 	if point != "-" {
 		rules[point] = verifhook.Rule{Occurrence: occ, Sleep: time.Duration(sleepMs) * time.Millisecond}
@@ -146,6 +151,17 @@ func cmdSchedErr(o *Out, line string, f []string) {
 	}
 	if errAtFalse != nil && errLater == nil {
 		o.violation(line, "Err() went back to nil", nil)
+	}
+	// errors reported by several goroutines are all retained: the catcher joins them with newlines
+	if wantErrors > 0 {
+		got := 0
+		if errLater != nil {
+			got = strings.Count(errLater.Error(), "\n") + 1
+		}
+		if got < wantErrors {
+			o.violation(line, "an error reported by one of the reader's goroutines is missing from Err() after all of them have finished",
+				map[string]int{"reported": got, "failures_in_input": wantErrors})
+		}
 	}
 }
 
@@ -281,6 +297,32 @@ func streamSchedErr(o *Out, rng *rand.Rand, thorough bool, _ []string) {
 	for i := 0; i < np; i++ {
 		st := fs[rng.Intn(len(fs))]
 		lines = append(lines, fmt.Sprintf("sched-err %s - 0 1 %d %s | %s", readerNames[rng.Intn(len(readerNames))], 1+rng.Int63n(1<<30), hx(st), inflateTable(st)))
+	}
+	// two failures that every schedule reaches: a corrupt chunk (fails in the chunk decoder) directly followed by a
+	// truncated document (fails in the document reader); either goroutine may be the late one
+	{
+		docs := genDocs(rng, []*Schema{{Key: "a", Tag: 0x12, Gen: int64Gen(rng)}}, 6)
+		good := collect("batch", 2, nil, docs)
+		tds := topDocs(good)
+		for k := 0; k+1 < len(tds); k++ {
+			m := append([]byte{}, good[:tds[k].off]...)
+			m = append(m, rebuildChunk(int32(k), 1, []byte{5, 0, 0, 0, 0, 9, 0, 0, 0, 0, 0, 0, 0}, -1, nil)...)
+			m = append(m, good[tds[k+1].off:tds[k+1].off+tds[k+1].l/2]...)
+			for _, rd := range readerNames {
+				// both goroutines report into the chunk iterator's catcher: that is where "all retained" is
+				// observable. The layered iterators copy the chunk iterator's error once, when it ends, so a later
+				// report does not show through them (observed, see DESIGN §6); they must still fail.
+				want := 1
+				if rd == "chunks" {
+					want = 2
+				}
+				for _, pt := range []string{"-", "catcher.Add", "ReadChunks.diagnostic.close", "ReadChunks.chunks.close", "readDiagnostic.send"} {
+					for _, oc := range []int{1, 2} {
+						lines = append(lines, fmt.Sprintf("sched-err %s %s %d %d 0 %s | %s | errors>=%d", rd, pt, oc, sleep, hx(m), inflateTable(m), want))
+					}
+				}
+			}
+		}
 	}
 	// errors reported concurrently by several goroutines are all retained
 	for i := 0; i < 4; i++ {
